@@ -205,6 +205,37 @@ def replay_file_collision(check):
                         case={"crates": ["SharedModels", "shared_models"]}, impl={"files": files}, failing_input=True)
 
 
+def replay_round13_findings(check):
+    """two findings of round 13 on the real binary (both recorded as open): (i) a crate called `codable` and Swift's shared helper file
+    `Codable.swift` have one path - the helper, written last, replaces the module, the crate's types are in no file; (ii) the crate name
+    is read off the path *as spelled*: run from inside the crate (`typeshare . -d out`, `typeshare src -d out`) the directory above `src`
+    is not in the spelled path, and the types land in a file called `..ts` or in no file at all"""
+    with Scratch() as sc:
+        sc.write("ws/app/src/lib.rs", "#[typeshare]\npub struct Ack { pub nothing: () }\n")
+        sc.write("ws/codable/src/lib.rs", "#[typeshare]\npub struct Payload { pub id: u32 }\n")
+        r = run_cli(["--lang", "swift", "-d", sc.path("out"), sc.path("ws")], cwd=sc.dir)
+        files = {f: open(os.path.join(sc.path("out"), f), encoding="utf-8").read() for f in sorted(os.listdir(sc.path("out")))} \
+            if os.path.isdir(sc.path("out")) else {}
+    check.saw(("helper-file-replaces-module-witness",), nontrivial=True)
+    if r["rc"] == 0 and not any("Payload" in t for t in files.values()):
+        wit = {"crates": ["app (uses `()`)", "codable"], "files_written": sorted(files), "Payload_defined_in": None}
+        if not check.known("swift-helper-file-replaces-module", wit):
+            check.violation("swift -d: the struct `Payload` of crate `codable` is in no output file (files: %s; exit 0)" % sorted(files),
+                            case=wit, impl={"files": files}, failing_input=True)
+    for args, cwd_rel in ((["."], "ws/alpha"), (["src"], "ws/alpha"), (["."], "ws/alpha/src")):
+        with Scratch() as sc:
+            sc.write("ws/alpha/src/lib.rs", "#[typeshare]\npub struct InAlpha { pub a: u8 }\n")
+            r = run_cli(["--lang", "typescript", "-d", sc.path("out")] + args, cwd=sc.path(cwd_rel))
+            files = sorted(os.listdir(sc.path("out"))) if os.path.isdir(sc.path("out")) else []
+        check.saw(("spelled-path-witness", cwd_rel, args[0]), nontrivial=True)
+        if r["rc"] == 0 and files != ["alpha.ts"]:
+            wit = {"working_directory": cwd_rel, "arguments": args, "files_written": files, "expected": ["alpha.ts"]}
+            if not check.known("crate-name-from-spelled-path", wit):
+                check.violation("typescript -d, `typeshare %s -d out` run in %s: the type of crate `alpha` is written to %s, not to alpha.ts"
+                                % (args[0], cwd_rel, files or "no file"), case=wit, impl={"files": files, "stderr": r["err"][-500:]}, failing_input=True)
+                return
+
+
 # ----------------------------------------------------------------------------- names beyond ASCII
 # Rust identifiers are Unicode (XID_Start XID_Continue*), and a crate is whatever directory lies above `src`.  The first letters
 # below are grouped by what char::is_uppercase / char::is_lowercase say about them; the check does not trust the grouping: the
@@ -312,9 +343,203 @@ def unicode_names_part(check):
     return False
 
 
-def workspace_case(check, w, lang, force, ncr, draw_names=None, label=""):
+# ----------------------------------------------------------------------------- how the inputs are named on the command line
+def rust_components(p):
+    """`Path::iter()` of Rust std on Unix: the root `/`, a leading `.`, every `..` and every name; repeated and trailing
+    slashes and every `.` after the first component vanish"""
+    parts = p.split("/")
+    out = ["/"] if p.startswith("/") else []
+    for i, x in enumerate(parts):
+        if x == "" or (x == "." and (i > 0 or p.startswith("/"))):
+            continue
+        out.append(x)
+    return out
+
+
+def crate_by_rule(comps):
+    """the statement's rule on the components of a path: the directory above the last `src`, dashes as underscores"""
+    idx = max((k for k, c in enumerate(comps) if c == "src"), default=None)
+    return comps[idx - 1].replace("-", "_") if idx is not None and idx >= 1 else None
+
+
+SPELLINGS = ["absolute", "relative", "./relative", "trailing slash", "doubled slash", "inner /./", "detour d/../d", "absolute with a detour d/../d"]
+LEVELS = ["the workspace root", "a directory between the root and the crate directory", "the crate directory", "the crate's src directory",
+          "a directory below src", "the source file itself"]
+WORKDIRS = ["the parent of the workspace root", "the workspace root", "an unrelated directory", "a crate directory", "a crate's src directory",
+            "a directory below a crate's src"]
+NAMING_TICK = [0]
+
+
+def spell(rng, target, cwd, is_dir, kind):
+    """one way to write the absolute path `target` on a command line run in the directory `cwd`"""
+    def detour(path, first):
+        comps = path.split("/")
+        # a directory name of the path (not `..`, not the file name) is followed by `/../<the same name>`
+        at = [i for i, c in enumerate(comps) if i >= first and c not in ("", ".", "..") and (is_dir or i < len(comps) - 1)]
+        # seldom at a `src` directory itself: `c/src/../src/lib.rs` has `..` above its last `src` (no crate directory in that path)
+        if rng.random() < 0.85 and any(comps[i] != "src" for i in at):
+            at = [i for i in at if comps[i] != "src"]
+        if not at:
+            return path
+        i = rng.choice(at)
+        return "/".join(comps[:i + 1] + ["..", comps[i]] + comps[i + 1:])
+    rel = os.path.relpath(target, cwd)
+    if kind == "absolute":
+        return target
+    if kind == "absolute with a detour d/../d":
+        # the detour lies inside the scratch directory (what is above it is not ours to name)
+        return detour(target, len(cwd.split("/")) - 1 if target.startswith(cwd + "/") else len(target.split("/")) - 2)
+    if rel == ".":
+        return rng.choice([".", "./"])
+    if kind == "./relative":
+        return "./" + rel
+    if kind == "trailing slash" and is_dir:
+        return rel + rng.choice(["/", "/", "//", "/."])
+    if kind in ("doubled slash", "inner /./") and "/" in rel:
+        cuts = [i for i, ch in enumerate(rel) if ch == "/"]
+        i = rng.choice(cuts)
+        return rel[:i] + ("//" if kind == "doubled slash" else "/./") + rel[i + 1:]
+    if kind == "detour d/../d":
+        return detour(rel, 0)
+    return rel
+
+
+def name_inputs(force_level=None, force_spelling=None, force_workdir=None, partial=False):
+    """A drawer of invocations for a workspace already written below `scratch`/`root`: for every source file one of its
+    ancestors (or the file itself) is chosen as the thing to name - the workspace root, a directory between root and crate, the
+    crate directory, its `src` directory, a directory below `src`, the file; inputs that lie below another input are dropped
+    (no file is reached twice), the rest is shuffled; `partial`: the files of some crates are left out.  Every input is then
+    spelled in one of SPELLINGS relative to a working directory from WORKDIRS.  The result says, per source file, the path the
+    walker gets for it (the spelled input plus the way down) and sorts the files into `demanded` (that path has the crate
+    directory above its last `src`), `loose` (it has not: `src/lib.rs` from inside the crate, `./lib.rs`, `..` or `.` above `src`)
+    and `unnamed` (below no input)."""
+    def draw(rng, sc, root, files):
+        NAMING_TICK[0] += 1
+        tick = NAMING_TICK[0]
+        rootp = sc.path(root)
+        counts = []
+        chosen = [f for f in files]
+        if partial and len(files) >= 2:
+            chosen = rng.sample(files, rng.randint(1, len(files) - 1))
+        targets = {}                        # absolute path -> (is_dir, level)
+        for f in chosen:
+            comps = f["rel"].split("/")
+            last_src = max(i for i, c in enumerate(comps) if c == "src")
+            # ancestors of the file inside the workspace, by what they are for this file
+            # (the number of components of the file's path that are kept: 0 = the root, last_src = …/<crate>, all = the file)
+            by_level = {"the workspace root": [0], "a directory between the root and the crate directory": list(range(1, last_src)),
+                        "the crate directory": [last_src], "the crate's src directory": [last_src + 1],
+                        "a directory below src": list(range(last_src + 2, len(comps))), "the source file itself": [len(comps)]}
+            if force_level:
+                level = force_level if by_level[force_level] else "the crate's src directory"
+            else:
+                # every level comes round regularly, the root seldom (it swallows every other input)
+                r = (tick * 0.61803 + rng.random() * 0.5 + 0.37 * len(targets)) % 1.0
+                level = LEVELS[min(5, int(r * 5.4 + 0.6))] if r > 0.06 else LEVELS[0]
+                if not by_level[level]:
+                    level = rng.choice(["the crate directory", "the crate's src directory", "the source file itself"])
+            keep = rng.choice(by_level[level])
+            targets[os.path.join(rootp, *comps[:keep]) if keep else rootp] = (keep < len(comps), level)
+        # no input below another one
+        tl = [t for t in targets if not any(t != o and t.startswith(o + "/") for o in targets)]
+        rng.shuffle(tl)
+        # the working directory
+        wd = force_workdir or (WORKDIRS[tick % len(WORKDIRS)] if rng.random() < 0.5 else rng.choice(WORKDIRS[:3]))
+        some = rng.choice(files)["rel"].split("/")
+        ls = max(i for i, c in enumerate(some) if c == "src")
+        if wd == "a directory below a crate's src" and len(some) - ls < 3:
+            wd = "a crate's src directory"
+        cwd = {"the parent of the workspace root": sc.dir, "the workspace root": rootp, "an unrelated directory": sc.path("elsewhere/deep"),
+               "a crate directory": os.path.join(rootp, *some[:ls]), "a crate's src directory": os.path.join(rootp, *some[:ls + 1]),
+               "a directory below a crate's src": os.path.join(rootp, *some[:ls + 2])}[wd]
+        os.makedirs(cwd, exist_ok=True)
+        counts.append("working directory: " + wd)
+        counts.append("number of inputs: %d" % len(tl))
+        args, explained = [], []
+        for t in tl:
+            is_dir, level = targets[t]
+            kind = force_spelling or (SPELLINGS[(tick + len(args)) % len(SPELLINGS)] if rng.random() < 0.6 else rng.choice(SPELLINGS))
+            a = spell(rng, t, cwd, is_dir, kind)
+            assert os.path.realpath(os.path.join(cwd, a)) == os.path.realpath(t), (cwd, a, t)
+            args.append(a)
+            explained.append({"input": a.replace(sc.dir, "T"), "is": level, "spelling": kind, "names": os.path.relpath(t, sc.dir)})
+            counts.append("input is " + level)
+            counts.append("input spelled: " + kind)
+        if len({targets[t][1] for t in tl}) > 1:
+            counts.append("inputs of different levels together")
+        # per source file: the path the walker gets
+        spelled, all_comps, demanded, loose, unnamed, why = {}, {}, [], [], [], {}
+        for f in files:
+            fp = os.path.join(rootp, f["rel"])
+            hit = [(t, a) for t, a in zip(tl, args) if fp == t or fp.startswith(t + "/")]
+            if not hit:
+                unnamed.append(f)
+                continue
+            t, a = hit[0]
+            sp = a if fp == t else a.rstrip("/") + "/" + os.path.relpath(fp, t)
+            spelled[f["rel"]] = sp.replace(sc.dir, "T") if sp.startswith("/") else sp
+            comps = all_comps[f["rel"]] = rust_components(sp)
+            c = crate_by_rule(comps)
+            if c == f["crate"].replace("-", "_"):
+                demanded.append(f)
+            else:
+                loose.append(f)
+                why[f["rel"]] = "no `src` component" if "src" not in comps else "nothing above `src`" if c is None else "`%s` above `src`" % c
+        counts += ["source file reached with its crate directory in the spelled path"] * len(demanded)
+        counts += ["source file reached without a crate directory in the spelled path"] * len(loose)
+        counts += ["source file below no input"] * len(unnamed)
+        shown_cwd = cwd.replace(sc.dir, "T")
+        shown_args = [a.replace(sc.dir, "T") for a in args]
+        return dict(args=args, cwd=cwd, demanded=demanded, loose=loose, unnamed=unnamed, loose_why=why, spelled=spelled, comps=all_comps, counts=counts,
+                    shown_cwd=shown_cwd, shown_args=shown_args, shown="cd %s; %s" % (shown_cwd, " ".join(shown_args)), explained=explained)
+    return draw
+
+
+def input_naming_part(check):
+    """Dimension: *how the inputs are named on the command line* in folder-output mode.  Workspaces as in the main loop (2-5
+    crates, source files at depth 0-2 under `src`, crates nested under another crate's `src`, workspace roots below a directory
+    called `src`, every reference style), but instead of the absolute path of the workspace root the command line names, for every
+    source file, one of: the workspace root, a directory between root and crate, the crate directory, the crate's `src` directory,
+    a directory below `src`, the file itself - several inputs of different levels together, in shuffled order, some crates left out
+    altogether - each spelled absolutely, relatively, with `./`, a trailing slash, a doubled slash, an inner `/./` or a detour
+    `d/../d`, from the parent of the root, the root, an unrelated directory, a crate directory, a `src` directory or below (then
+    relative spellings climb with `..`).  The first invocations are one per (level, language) and one per (spelling, working
+    directory) pair.
+    Demands, judged on the files the binary wrote: every source file that an input names or lies above, and whose path *as the
+    walker gets it* (the spelled input plus the way down) has its crate directory above the last `src`, is written to the file
+    named after that crate and nowhere else; one file per such crate and no other file; files below no input contribute
+    nothing; the definitions equal what single-file mode (-o) writes for the same inputs from the same directory; imports (TS,
+    Kotlin) sound and complete among the crates that were named.  Files whose spelled path has no crate directory (`src/lib.rs`
+    seen from inside the crate, `./lib.rs`, `.`/`..` right above `src`) are counted with what the tool did.  Then the model on
+    the same files with the crate name its find_crate_name gives for the spelled path, byte for byte."""
+    rng = check.rng
+    rounds, nws = (3, 400) if check.thorough else (1, 36)
+    forced = []
+    for _ in range(rounds):
+        for i, lv in enumerate(LEVELS):
+            for L in (LANGS[i % 6], "typescript"):
+                forced.append((L, dict(force_level=lv)))
+        for i, sp in enumerate(SPELLINGS):
+            forced.append((LANGS[(i + 1) % 6], dict(force_spelling=sp, force_workdir=WORKDIRS[i % len(WORKDIRS)])))
+            forced.append((("kotlin", "typescript")[i % 2], dict(force_spelling=sp, force_workdir=WORKDIRS[(i + 3) % len(WORKDIRS)])))
+    for w in range(-len(forced), nws):
+        if w < 0:
+            lang, kw = forced[w]
+            ncr = rng.randint(2, 4)
+        else:
+            lang, kw = (LANGS + ["typescript", "kotlin"])[w % 8], dict(partial=w % 3 == 0)
+            ncr = rng.randint(1, 5)
+        # w * 3 + 1: no constants-only crate here (the main loop has it)
+        if workspace_case(check, w * 3 + 1, lang, "use" if w < 0 and w % 2 else None, ncr, label="input naming: ", naming=name_inputs(**kw)):
+            return True
+    return False
+
+
+def workspace_case(check, w, lang, force, ncr, draw_names=None, label="", naming=None):
     """one generated workspace through the real binary (-d and -o) and the model; all of C14's oracles.  Returns True when a
-    violation was reported (the caller stops)."""
+    violation was reported (the caller stops).  `naming`: None (the absolute path of the workspace root is the only input, the
+    working directory is its parent) or a function (rng, scratch, root, files) -> invocation (see `name_inputs`): which
+    directories / files are named on the command line, how they are spelled and from which working directory."""
     rng = check.rng
     CONST_CRATE[0] = lang in ("typescript", "go", "python") and w % 3 == 0
     crates, files, g = make_workspace(rng, ncr, force, draw_names)
@@ -327,26 +552,53 @@ def workspace_case(check, w, lang, force, ncr, draw_names=None, label=""):
             sc.write(root + "/" + f["rel"], render_file(f["file"]))
         if "src" not in root.split("/"):
             sc.write(root + "/not_a_crate/readme.rs", "#[typeshare]\npub struct Orphan { pub a: u8 }\n")   # no `src` above: belongs to no crate
-        r = run_cli(["--lang", lang, "-d", sc.path("out")] + lang_args(lang) + [sc.path(root)], cwd=sc.dir)
-        r1 = run_cli(["--lang", lang, "-o", sc.path("single." + EXT[lang])] + lang_args(lang) + [sc.path(root)], cwd=sc.dir)
+        inv = naming(rng, sc, root, files) if naming else None
+        inputs, cwd = (inv["args"], inv["cwd"]) if inv else ([sc.path(root)], sc.dir)
+        r = run_cli(["--lang", lang, "-d", sc.path("out")] + lang_args(lang) + inputs, cwd=cwd)
+        r1 = run_cli(["--lang", lang, "-o", sc.path("single." + EXT[lang])] + lang_args(lang) + inputs, cwd=cwd)
         outs = {}
         if os.path.isdir(sc.path("out")):
             for fn in sorted(os.listdir(sc.path("out"))):
                 outs[fn] = open(os.path.join(sc.path("out"), fn), encoding="utf-8").read()
         single = open(sc.path("single." + EXT[lang]), encoding="utf-8").read() if os.path.exists(sc.path("single." + EXT[lang])) else None
-    cross = sum(len(f["ext"]) for f in files)
-    check.saw((lang, json.dumps([f["rel"] for f in files]), label, w), nontrivial=ncr >= 2 and cross > 0)
+    # with a `naming`: the oracles below speak about the files the command line names and whose path - as spelled there - has
+    # the crate directory above its last `src` (`files` from here on); the others are judged after them
+    all_files, loose, unnamed = files, [], []
+    if inv:
+        files, loose, unnamed = inv["demanded"], inv["loose"], inv["unnamed"]
+        for k in inv["counts"]:
+            check.count(label + k)
+    named_crates = {f["crate"] for f in files}
+    cross = sum(1 for f in files for oc, _ in f["ext"] if oc in named_crates)
+    check.saw((lang, json.dumps([f["rel"] for f in files]), label, w, inv["shown"] if inv else ""), nontrivial=len(files) >= 2 and cross > 0 if inv else ncr >= 2 and cross > 0)
     check.count("%s%s crates=%d" % (label, lang, ncr))
     check.count("%slayout root=%s nested=%d" % (label, root, sum(1 for f in files if f["rel"].startswith("outer"))))
     if r["rc"] != 0:
         # generation-time errors (e.g. OffsetDateTime in Kotlin/Swift/Scala, generics in Go) are not C14's business
         check.count("generation-error")
+        if inv and r1["rc"] == 0:
+            check.count(label + "folder mode fails where single-file mode succeeds on the same inputs: " + (r["err"].strip().split("\n") or [""])[-1][:80])
         return False
     problem = None
     expected_files = {file_name(lang, f["crate"]) for f in files}
     got_files = {fn for fn in outs if fn != "Codable.swift"}
+    all_defs = {fn: [next(x for x in (d if isinstance(d, tuple) else (d,)) if x) for d in re.findall(DEF_RX[lang], outs[fn], re.M)] for fn in got_files}
+    if loose:
+        # files whose spelled path names no crate directory (`src/lib.rs`, `./lib.rs`; `.` or `..` above `src`): what the tool does
+        # with them is counted, not demanded - a file that holds nothing but their types is set aside
+        loose_names = {o for f in loose for o in f["owned"]}
+        other_names = {o for f in files + unnamed for o in f["owned"]} - loose_names
+        for f in loose:
+            elsewhere = {o for x in all_files if x is not f for o in x["owned"]}      # helper names (LocalWrap2 …) may repeat between crates
+            at = sorted(fn for fn in got_files if any(d in f["owned"] and d not in elsewhere for d in all_defs[fn]))
+            check.count("%sno crate directory in the spelled path (%s): types written to %s" % (
+                label, inv["loose_why"][f["rel"]], "no file" if not at else "the file of the crate" if at == [file_name(lang, f["crate"])] else "a file called " + ", ".join(at)))
+        got_files = {fn for fn in got_files if fn in expected_files or any(d in other_names for d in all_defs[fn])}
     if got_files != expected_files:
         problem = "files written %s, expected one per crate: %s" % (sorted(got_files), sorted(expected_files))
+        if inv and single is not None and r1["rc"] == 0:
+            ds = [next(x for x in (d if isinstance(d, tuple) else (d,)) if x) for d in re.findall(DEF_RX[lang], single, re.M)]
+            problem += " (exit status 0; single-file mode on the same inputs defines %s)" % ", ".join(ds)
     defs_multi = []
     if not problem:
         for f in files:
@@ -384,6 +636,8 @@ def workspace_case(check, w, lang, force, ncr, draw_names=None, label=""):
                             problem = "import of %s from %s, which does not define it" % (n, mod)
                 imported = {n for _, names in imps for n in names}
                 for oc, wname in f["ext"]:
+                    if oc not in named_crates:
+                        continue          # the crate of that type is not among the inputs: no module to import from
                     used = re.search(r"[:<\[( |]%s\b" % re.escape(wname), text) is not None
                     if draw_names and used and f["style"][wname] != "none":
                         check.count("%sreference: type initial %s, crate initial %s: %s" % (
@@ -422,7 +676,17 @@ def workspace_case(check, w, lang, force, ncr, draw_names=None, label=""):
                         problem = "%s uses %s (defined in crate %s, written to %s; referenced by `%s`) without importing it; its import lines: %s" % (
                             file_name(lang, f["crate"]), wname, oc, file_name(lang, oc), st,
                             [l for l in text.split("\n") if l.startswith("import ") and "kotlinx" not in l] or "none")
-    if not problem and single is not None and r1["rc"] == 0:
+    if not problem and unnamed:
+        # a source file that no input names (or lies above) contributes nothing
+        named_words = {o for f in files + loose for o in f["owned"]}
+        for f in unnamed:
+            for o in f["owned"]:
+                at = sorted(fn for fn, ds in all_defs.items() if o in ds)
+                if o not in named_words and at:
+                    problem = "%s defines %s, a type of %s, which none of the inputs names" % (", ".join(at), o, f["rel"])
+    if loose and not problem:
+        check.count(label + "comparison with single-file mode and with the model left out: an input without a crate directory in its spelled path")
+    if not problem and single is not None and r1["rc"] == 0 and not loose:
         ds = re.findall(DEF_RX[lang], single, re.M)
         ds = [next(x for x in (d if isinstance(d, tuple) else (d,)) if x) for d in ds]
         # the program's own types (under their original or serde-renamed names, helper types included):
@@ -440,6 +704,17 @@ def workspace_case(check, w, lang, force, ncr, draw_names=None, label=""):
                 problem = ("single-file mode %s `CodableVoid`, the folder %s it (files: %s)%s"
                            % ("defines" if one else "does not define", "defines" if many else "does not define", sorted(outs),
                               "; a module refers to it" if used else ""))
+    if problem and inv:
+        check.violation("%s%s -d, inputs named `%s` from %s: %s" % (label, lang, " ".join(inv["shown_args"]), inv["shown_cwd"], problem),
+                        case={"lang": lang, "root": root, "files": {f["rel"]: render_file(f["file"]) for f in all_files},
+                              "T": "the directory the files are written under (`root` is relative to it)",
+                              "command": "cd %s && typeshare --lang %s -d T/out %s %s" % (inv["shown_cwd"], lang, " ".join(lang_args(lang)), " ".join(inv["shown_args"])),
+                              "single_file_command": "cd %s && typeshare --lang %s -o T/single.%s %s %s" % (inv["shown_cwd"], lang, EXT[lang], " ".join(lang_args(lang)), " ".join(inv["shown_args"])),
+                              "inputs": inv["explained"],
+                              "expected": {f["rel"]: file_name(lang, f["crate"]) for f in files},
+                              "folder_run": {"rc": r["rc"], "stderr": r["err"][-600:]}},
+                        impl=outs, failing_input=True)
+        return True
     if problem:
         check.violation("%s%s -d: %s" % (label, lang, problem),
                         case={"lang": lang, "root": root, "files": {f["rel"]: render_file(f["file"]) for f in files},
@@ -447,11 +722,27 @@ def workspace_case(check, w, lang, force, ncr, draw_names=None, label=""):
                         impl=outs, failing_input=True)
         return True
     # the tie: pipeline + back-end model on the same workspace
-    jobs = [{"crate": f["crate"].replace("-", "_"), "file_name": file_name(lang, f["crate"]), "path": root + "/" + f["rel"], "file": f["file"]} for f in files]
+    jobs = [{"crate": f["crate"].replace("-", "_"), "file_name": file_name(lang, f["crate"]), "file": f["file"],
+             "path": inv["spelled"][f["rel"]] if inv else root + "/" + f["rel"]} for f in files]
     cfg = {"package": "proto" if lang == "go" else "com.example", "version_header": True, "type_mappings": {}}
     names = set().union(*[l2.names_of(f["file"]) for f in files])
     mreq, _, _ = l2.requests(lang, cfg, jobs, g, multi_file=True)
-    ma = model([mreq], names=names if lang == "python" else None)[0]
+    # with a `naming`: first the model's find_crate_name on the components of every path as the walker gets it (the files that
+    # are only counted too); the crate names the generate request carries are the ones the rule gives for those paths
+    asked = [(f, inv["comps"][f["rel"]], any(f is x for x in files)) for f in files + loose] if inv else []
+    answers = model([[S("crate-name"), comps, S(lang)] for _, comps, _ in asked] + ([] if loose else [mreq]), names=names if lang == "python" else None)
+    for (f, comps, dem), a in zip(asked, answers):
+        want = crate_by_rule(comps)
+        if a.get("ok") != want or (dem and a.get("file") != file_name(lang, f["crate"])):
+            check.violation("find_crate_name on the path `%s` as spelled on the command line: the model answers %s, the rule (the "
+                            "directory above the last `src` component, dashes as underscores) gives %r%s"
+                            % (inv["spelled"][f["rel"]], json.dumps(a, ensure_ascii=False), want, ", file " + file_name(lang, f["crate"]) if dem else ""),
+                            case={"components": comps, "lang": lang}, model=a, failing_input=False,
+                            broken="correspondence L0 find_crate_name (theorem TsV.C14.findCrateName_spec) on spelled input paths")
+            return True
+    if loose:
+        return False
+    ma = answers[-1]
     if draw_names:
         check.count("%smodel %s" % (label, "run on the same workspace" if "ok" in ma else "gives no text: %s" % json.dumps(l2.norm(ma))[:80]))
     if "ok" in ma:
@@ -481,7 +772,12 @@ def run(check):
                   "Kotlin) sound and - outside the known classes - complete; generated text byte-exact against the pipeline + "
                   "back-end models; non-trivial = at least two crates and one cross-crate reference; the same with crate directories and "
                   "type names beyond ASCII (upper-case, lower-case and caseless first letters by Rust's char::is_uppercase / "
-                  "is_lowercase, non-ASCII inner letters), every reference style")
+                  "is_lowercase, non-ASCII inner letters), every reference style; the same with the inputs named on the command line "
+                  "in other ways than by the absolute path of the workspace root: per source file the root, a directory above the crate, "
+                  "the crate directory, its src directory, a directory below src or the file itself, several inputs together, some crates "
+                  "left out, spelled absolutely / relatively / with ./, trailing and doubled slashes, /./ and d/../d detours, from six "
+                  "kinds of working directory - every file whose path as spelled has its crate directory above the last src must be in "
+                  "that crate's file, nothing else written, definitions as in single-file mode on the same inputs")
     # the first workspaces are one per (import-writing language, reference style): three or four crates, every cross-crate
     # reference written in that style
     forced = [(L, st) for st in FORCED for L in ("typescript", "kotlin")] * 2      # twice: a workspace may fail to generate (unsupported types)
@@ -496,10 +792,17 @@ def run(check):
             return
     if unicode_names_part(check):
         return
+    if input_naming_part(check):
+        return
     witnesses(check)
     crate_paths(check)
     replay_file_collision(check)
+    replay_round13_findings(check)
     check.assumptions += ["path components are taken as the OS gives them (no symlink resolution modelled)",
+                          "the crate of a source file is read off its path as the walker gets it - the input as spelled on the command line plus the "
+                          "way down to the file - not off the resolved location: inputs whose spelling leaves no crate directory above the last "
+                          "`src` (`src` or `.` given from inside the crate, `c/src/../src`) are counted with what the tool did, not demanded; no "
+                          "input lies below another input (no file is reached twice)",
                           "completeness of the import clause is claimed only for plain / grouped `use` of un-renamed types (see the open findings)",
                           "a reference is a type name with an upper-case first letter under a crate name with a lower-case first letter (Unicode "
                           "case, as accept_type / accept_crate and the Lean statement have it): types and crates whose first letter has no case "
